@@ -165,6 +165,28 @@ func Str(l string) string {
 	return string(realize(node))
 }
 
+const rawAlphabet = "~!@$^&*|;?<>`"
+
+// saltRaw permutes the filler alphabet of unconstrained strings ($VERIF_RAW_SALT): the content of such strings is arbitrary, so a
+// replay may try several of them (needed where the outcome depends on a hash of the string, e.g. the hash-to-curve counter)
+func saltRaw(b []byte) []byte {
+	salt := 0
+	fmt.Sscan(os.Getenv("VERIF_RAW_SALT"), &salt)
+	if salt == 0 {
+		return b
+	}
+	out := make([]byte, len(b))
+	for i, c := range b {
+		k := strings.IndexByte(rawAlphabet, c)
+		if k < 0 {
+			out[i] = c
+		} else {
+			out[i] = rawAlphabet[(k+salt)%len(rawAlphabet)]
+		}
+	}
+	return out
+}
+
 var curveN = secp256k1.S256().N
 
 func scalarOf(dec string) *secp256k1.ModNScalar {
@@ -195,7 +217,7 @@ func realize(node map[string]json.RawMessage) []byte {
 		return b
 	case node["raw"] != nil:
 		b, _ := hex.DecodeString(str("raw"))
-		return b
+		return saltRaw(b)
 	case node["hexenc"] != nil:
 		return []byte(hex.EncodeToString(sub("hexenc")))
 	case node["b64"] != nil:
